@@ -38,6 +38,9 @@ def h_symqsp(c):
     out = {"states": states, "fresh": _proto_state(fresh)}
     U = p.gen_unitary(samples)
     out["u00"] = enc(numpy.array([u[0, 0] for u in U], dtype=complex))
+    # the whole matrix: <+|U|+> = (sum of the four entries)/2, and the SU(2) / symmetry relations U11 = conj U00, U10 = -conj U01, U01 = U10
+    out["upp"] = enc(numpy.array([(u[0, 0] + u[0, 1] + u[1, 0] + u[1, 1]) / 2 for u in U], dtype=complex))
+    out["ustruct"] = float(max([max(abs(u[1, 1] - numpy.conj(u[0, 0])), abs(u[1, 0] + numpy.conj(u[0, 1])), abs(u[0, 1] - u[1, 0])) for u in U] + [0.0]))
     out["re"] = enc(numpy.asarray(p.gen_response_re(samples), dtype=float))
     out["im"] = enc(numpy.asarray(p.gen_response_im(samples), dtype=float))
     # the 3x3 recurrences at every sample point inside [-1, 1]
